@@ -352,7 +352,7 @@ pub fn run(tier: Tier) -> i32 {
     let mut ctx = Ctx::new("C11", tier);
     let pre = preflight();
     let seed = ctx.seed;
-    let per = tier.n(700, 16_000);
+    let per = tier.n(700, 60_000);
     let mut tally = ctx.par(32, |s| shard(seed, s, per));
     if let Err(e) = &pre {
         tally.inconclusive.push(e.clone());
